@@ -318,14 +318,34 @@ def run(chk):
     for a, kw in db_cases:
         for mono in (True, False):
             ocases.append((a, {**kw, 'monoisotopic': mono}))
+    # global rules carrying plain numeric shifts (and mixed numeric + named) whose target occurs >= 2 times on otherwise
+    # unmodified residues, with and without terminal targets, precursor and fragment ion types, both modes
+    for _ in range(150 if tier == 'quick' else 4000):
+        t = rng.choice(cm.RES22)
+        n = rng.randint(3, 10)
+        seq = [rng.choice(cm.RES22) for _ in range(n)]
+        for pos in rng.sample(range(n), rng.randint(2, min(4, n))):
+            seq[pos] = t
+        body = rng.choice(['[+10]', '[10]', '[+1.5]^2', '[-17.5]', '[+10][Acetyl]', '[Oxidation][+3]', '[Formula:CH2][+2.25]',
+                           '[+10][+0.5]', '[Phospho]', '[+7]^3[Methyl]^2'])
+        tg = t + rng.choice(['', '', ',N-Term', ',C-Term', ',' + rng.choice(cm.RES22)])
+        rules = [Mod(f'{body}@{tg}', 1)]
+        if rng.random() < 0.3:
+            rules.append(Mod(rng.choice(['[+1]@N-Term', '[Acetyl]@N-Term', '[+2]@C-Term', '[Methyl][+4]@C-Term']), 1))
+        a = ProFormaAnnotation(_sequence=''.join(seq), _static_mods=rules)
+        kw = {'ion_type': rng.choice(['p', 'p', 'n', 'b', 'y', 'a', 'by', 'cz', 'i']), 'monoisotopic': rng.random() < 0.5}
+        if rng.random() < 0.6:
+            kw['charge'] = rng.randint(-2, 3)
+        ocases.append((a, kw))
     while len(ocases) < budget:
         a = cm.gen_annotation(rng, kinds=KINDS, isotope_p=0.15, charge_p=0.35)
         kw = gen_kw(rng)
         kw['monoisotopic'] = rng.random() < 0.5
         ocases.append((a, kw))
     chk.oracle('mass_eq_chem_mass_of_comp_plus_delta', ocases, identity,
-               nontrivial_fn=lambda c: cm.has_mods(c[0]) or bool(c[1].get('charge')), key_fn=lambda c: json.dumps(c02h.obj_of(*c), sort_keys=True))
-    c02h._attach_cases(chk, 'mass_eq_chem_mass_of_comp_plus_delta', ocases, identity)
+               nontrivial_fn=lambda c: cm.has_mods(c[0]) or bool(c[1].get('charge')), key_fn=lambda c: json.dumps(c02h.obj_of(*c), sort_keys=True),
+               max_report=10 ** 6)
+    c02h._attach_cases(chk, 'mass_eq_chem_mass_of_comp_plus_delta', ocases, identity, classify)
 
     # the +1 ion tables, entry by entry (witness producer for ion_tables_agree)
     from peptacular import constants
